@@ -15,7 +15,7 @@
 //!      `numhash X`  -> the sequence of `Hasher::write` calls, one `s:<hex bytes>` per call
 //!      `hasheq X Y` -> true|false       (the two recorded sequences are equal)
 //! A pair for which the library has no impl prints `ok nopair` (the model carries the same table).
-#![allow(deprecated)]
+#![allow(deprecated, unreachable_patterns)]
 use dashu_base::{AbsEq, AbsOrd};
 use dashu_float::round::mode;
 use dashu_float::{Context, FBig, Repr};
